@@ -135,6 +135,13 @@ func ruleF2(c *Ctx) {
 				got[w] = true
 				continue
 			}
+			// slices.ContainsFunc(table, func(t error) bool { return errors.Is(err, t) }) over a constant table of sentinels
+			if ws, ok := sentinelTable(m, f, s.v); ok {
+				for _, w := range ws {
+					got[w] = true
+				}
+				continue
+			}
 			if !isConstBool(s.v, true) {
 				c.violate("F2", "only-sentinels/computed", r.Pos(), "isFatalError is decided by sentinel tests only", "isFatalError returns a computed value ("+s.v.String()+")")
 				continue
@@ -696,4 +703,126 @@ func formatVerbs(f string) []string {
 		}
 	}
 	return out
+}
+
+// sentinelTable: v is slices.ContainsFunc(T, func(t error) bool { return errors.Is(<f's parameter>, t) }) with T a
+// package-level slice initialised by a literal of sentinel error variables and never assigned again; returns them.
+func sentinelTable(m *Module, f *ssa.Function, v ssa.Value) ([]string, bool) {
+	call, ok := v.(*ssa.Call)
+	if !ok || len(call.Call.Args) != 2 {
+		return nil, false
+	}
+	g := m.callee(call.Common())
+	if g == nil {
+		return nil, false
+	}
+	o := g
+	if g.Origin() != nil {
+		o = g.Origin()
+	}
+	if o.Pkg == nil || o.Pkg.Pkg.Path() != "slices" || o.Name() != "ContainsFunc" {
+		return nil, false
+	}
+	ld, ok := call.Call.Args[0].(*ssa.UnOp)
+	if !ok {
+		return nil, false
+	}
+	tab, ok := ld.X.(*ssa.Global)
+	if !ok || tab.Pkg == nil {
+		return nil, false
+	}
+	// the predicate: errors.Is(captured parameter of f, its own parameter)
+	mc, ok := call.Call.Args[1].(*ssa.MakeClosure)
+	if !ok {
+		return nil, false
+	}
+	pred := mc.Fn.(*ssa.Function)
+	if len(pred.Params) != 1 || len(mc.Bindings) != 1 {
+		return nil, false
+	}
+	// the captured variable is f's parameter (possibly spilled into a cell)
+	capOK := false
+	switch b := mc.Bindings[0].(type) {
+	case *ssa.Parameter:
+		capOK = b == f.Params[0]
+	case *ssa.Alloc:
+		for _, st := range storesTo(b) {
+			if st.(*ssa.Store).Val == ssa.Value(f.Params[0]) {
+				capOK = true
+			}
+		}
+	}
+	if !capOK {
+		return nil, false
+	}
+	for _, r := range returnsOf(pred) {
+		c2, ok := r.Results[0].(*ssa.Call)
+		if !ok {
+			return nil, false
+		}
+		if h := m.callee(c2.Common()); h == nil || h.String() != "errors.Is" || c2.Call.Args[1] != ssa.Value(pred.Params[0]) {
+			return nil, false
+		}
+		a0 := c2.Call.Args[0]
+		if u, ok := a0.(*ssa.UnOp); ok {
+			a0 = u.X
+		}
+		if a0 != ssa.Value(pred.FreeVars[0]) {
+			return nil, false
+		}
+	}
+	// the table: written only by the package initialiser, from a literal of loads of error variables
+	initF := tab.Pkg.Func("init")
+	if initF == nil {
+		return nil, false
+	}
+	for _, fn := range m.funcsInPkg(tab.Pkg.Pkg.Path()) {
+		if fn == initF {
+			continue
+		}
+		for _, b := range fn.Blocks {
+			for _, in := range b.Instrs {
+				if st, ok := in.(*ssa.Store); ok && m.ap(st.Addr).Root == ssa.Value(tab) {
+					return nil, false
+				}
+			}
+		}
+	}
+	var out []string
+	for _, b := range initF.Blocks {
+		for _, in := range b.Instrs {
+			st, ok := in.(*ssa.Store)
+			if !ok || st.Addr != ssa.Value(tab) {
+				continue
+			}
+			sl, ok := st.Val.(*ssa.Slice)
+			if !ok {
+				return nil, false
+			}
+			arr, ok := sl.X.(*ssa.Alloc)
+			if !ok {
+				return nil, false
+			}
+			for _, r := range *arr.Referrers() {
+				ia, ok := r.(*ssa.IndexAddr)
+				if !ok {
+					continue
+				}
+				for _, rr := range *ia.Referrers() {
+					if s2, ok := rr.(*ssa.Store); ok && s2.Addr == ssa.Value(ia) {
+						u, ok := s2.Val.(*ssa.UnOp)
+						if !ok {
+							return nil, false
+						}
+						gl, ok := u.X.(*ssa.Global)
+						if !ok {
+							return nil, false
+						}
+						out = append(out, gl.Pkg.Pkg.Path()+"."+gl.Name())
+					}
+				}
+			}
+		}
+	}
+	return out, len(out) > 0
 }
